@@ -83,7 +83,7 @@ func init() {
 }
 
 func cfgParams(expiry, refresh, bound, max, deferred, icap int) map[string]int {
-	return map[string]int{"expiry": expiry, "refresh": refresh, "bound": bound, "max": max, "deferred": deferred, "icap": icap, "canary": 0}
+	return map[string]int{"expiry": expiry, "refresh": refresh, "bound": bound, "max": max, "deferred": deferred, "icap": icap, "canary": 0, "stats": 0}
 }
 
 func with(m map[string]int, kv ...interface{}) map[string]int {
@@ -220,6 +220,80 @@ func init() {
 		j.Canary = "c01.canary"
 		js = append(js, j)
 		return js
+	}
+}
+
+type seqCfg struct {
+	name                 string
+	exp, ref, bound, max int
+}
+
+func init() {
+	syncJobs := func(prop, fn string, cfgs []seqCfg, steps int, extra ...interface{}) []*Job {
+		var js []*Job
+		for _, c := range cfgs {
+			p := with(with(cfgParams(c.exp, c.ref, c.bound, c.max, 0, 0), "steps", steps), extra...)
+			j := mk(sprintf("%s.sync.%s", prop, c.name), rootPkg, fn, p, func(b *Bounds) { b.Unwind = 70; b.MaxPaths = 600000; b.MaxWallS = 1500 })
+			js = append(js, j)
+		}
+		return js
+	}
+	symJobs := func(prop, fn string, cfgs []seqCfg, midset int, deferred int) []*Job {
+		var js []*Job
+		for _, c := range cfgs {
+			p := with(cfgParams(c.exp, c.ref, c.bound, c.max, deferred, 0), "symtime", 1, "steps", 3, "nkeys", 2, "prefixset", 2, "opset", 0, "firstop", 0, "lastkeys", 1, "midset", midset)
+			j := mk(sprintf("%s.sym.%s", prop, c.name), rootPkg, fn, p, func(b *Bounds) { b.Unwind = 8; b.MaxPaths = 600000; b.MaxWallS = 1500 })
+			js = append(js, j)
+		}
+		return js
+	}
+	registry["C06"] = func(tier string) []*Job {
+		cfgs := []seqCfg{{"b_nomaint", 0, 0, 0, 0}, {"bs_max1", 0, 0, 1, 1}, {"bse_writing_max2", 2, 0, 1, 2}}
+		steps := 1
+		if tier == "thorough" {
+			cfgs = append(cfgs, seqCfg{"bs_max2", 0, 0, 1, 2}, seqCfg{"be_accessing", 3, 0, 0, 0}, seqCfg{"bew_w100", 3, 0, 2, 100}, seqCfg{"bser_max2", 1, 2, 1, 2})
+			steps = 2
+		}
+		js := syncJobs("c06", "ZZ_C06_Sync", cfgs, steps)
+		mid := 3
+		if tier == "thorough" {
+			mid = -1
+		}
+		js = append(js, symJobs("c06", "ZZ_C06_Sym", []seqCfg{{"b_nomaint", 0, 0, 0, 0}, {"be_writing", 2, 0, 0, 0}}, mid, 1)...)
+		c := syncJobs("c06", "ZZ_C06_Sync", []seqCfg{{"canary", 0, 0, 1, 1}}, 1, "canary", 1)[0]
+		c.Canary = "c06.canary"
+		return append(js, c)
+	}
+	registry["C07"] = func(tier string) []*Job {
+		cfgs := []seqCfg{{"bs_max1", 0, 0, 1, 1}, {"bs_max2", 0, 0, 1, 2}, {"bw_w100", 0, 0, 2, 100}, {"b_unbounded", 0, 0, 0, 0}}
+		steps := 1
+		if tier == "thorough" {
+			cfgs = append(cfgs, seqCfg{"bse_writing_max2", 2, 0, 1, 2}, seqCfg{"bew_accessing_w100", 3, 0, 2, 100}, seqCfg{"bw_w3", 0, 0, 2, 3}, seqCfg{"bs_max3", 0, 0, 1, 3})
+		}
+		js := syncJobs("c07", "ZZ_C07_Sync", cfgs, steps)
+		if tier == "thorough" {
+			js = append(js, syncJobs("c07", "ZZ_C07_Sync", []seqCfg{{"bs_max1.s2", 0, 0, 1, 1}, {"bs_max2.s2", 0, 0, 1, 2}}, 2)...)
+		}
+		c := syncJobs("c07", "ZZ_C07_Sync", []seqCfg{{"canary", 0, 0, 1, 1}}, 1, "canary", 1)[0]
+		c.Canary = "c07.canary"
+		return append(js, c)
+	}
+	registry["C20"] = func(tier string) []*Job {
+		cfgs := []seqCfg{{"b", 0, 0, 0, 0}, {"bs_max1", 0, 0, 1, 1}, {"bse_writing_max2", 2, 0, 1, 2}}
+		steps := 1
+		if tier == "thorough" {
+			cfgs = append(cfgs, seqCfg{"bw_w100", 0, 0, 2, 100}, seqCfg{"be_accessing", 3, 0, 0, 0}, seqCfg{"bs_max2", 0, 0, 1, 2})
+			steps = 2
+		}
+		js := syncJobs("c20", "ZZ_C20_Sync", cfgs, steps)
+		mid := 3
+		if tier == "thorough" {
+			mid = -1
+		}
+		js = append(js, symJobs("c20", "ZZ_C20_Sym", []seqCfg{{"be_writing", 2, 0, 0, 0}}, mid, 1)...)
+		c := syncJobs("c20", "ZZ_C20_Sync", []seqCfg{{"canary", 0, 0, 1, 1}}, 1, "canary", 1)[0]
+		c.Canary = "c20.canary"
+		return append(js, c)
 	}
 }
 
